@@ -126,15 +126,60 @@ const LAYER_NAMES: &[&str] = &["base", "main", "alpha", "first", "qwerty", "nav"
 const OLD_LETTERS: &[&str] = &["q", "w", "e", "r", "t", "y", "u", "i", "o", "p", "k", "l"];
 const NEW_LETTERS: &[&str] = &["z", "x", "c", "v", "b", "n", "m", "6", "7", "8", "k", "l"];
 
+/// zippychord part of a configuration: `(defzippy <file> <opts>)` plus the dictionary file content
+#[derive(Clone, Debug, PartialEq)]
+struct ZippySpec {
+    file: String,
+    /// (input column, output column)
+    entries: Vec<(String, String)>,
+    opts: String,
+}
+
+fn dict_text(z: &ZippySpec) -> String {
+    let mut t = String::from("// generated\n");
+    for (i, o) in &z.entries {
+        t.push_str(&format!("{i}\t{o}\n"));
+    }
+    t
+}
+
 #[derive(Clone, Debug)]
 struct CfgSpec {
     l0: String,
     l1: String,
     acts0: Vec<String>,
     acts1: Vec<String>,
-    opts: String,
+    /// defcfg options (name, value) besides process-unmapped-keys
+    opts: Vec<(String, String)>,
     overrides: Option<(String, String)>,
+    /// defvirtualkeys in definition order (the order is the index the TCP name table maps to)
+    vkeys: Vec<(String, String)>,
+    /// defseq entries: (virtual key name, key list)
+    seqs: Vec<(String, String)>,
+    zippy: Option<ZippySpec>,
 }
+
+impl CfgSpec {
+    fn opt(&self, name: &str) -> String {
+        self.opts.iter().find(|o| o.0 == name).map(|o| o.1.clone()).unwrap_or_else(|| "default".into())
+    }
+}
+
+/// defcfg options that `do_live_reload` copies into the running instance (or that live in the
+/// replaced layout) and that the generator varies independently for the old and the new file
+const VARIED_OPTS: &[&str] = &[
+    "concurrent-tap-hold",
+    "rapid-event-delay",
+    "override-release-on-activation",
+    "sequence-timeout",
+    "sequence-input-mode",
+    "sequence-backtrack-modcancel",
+    "sequence-always-on",
+    "movemouse-smooth-diagonals",
+    "movemouse-inherit-accel-state",
+    "dynamic-macro-max-presses",
+    "dynamic-macro-replay-delay-behaviour",
+];
 
 fn reload_row(num: usize, file: &str, noop: bool) -> String {
     if noop {
@@ -145,20 +190,38 @@ fn reload_row(num: usize, file: &str, noop: bool) -> String {
 }
 
 fn cfg_text(s: &CfgSpec, row: &str) -> String {
-    let mut t = format!("(defcfg process-unmapped-keys yes{})\n", s.opts);
+    let mut t = String::from("(defcfg process-unmapped-keys yes");
+    for (n, v) in &s.opts {
+        t.push_str(&format!(" {n} {v}"));
+    }
+    t.push_str(")\n");
     t.push_str(&format!("(defsrc {} {})\n", ACT_KEYS.join(" "), RELOAD_KEYS.join(" ")));
-    t.push_str("(defvirtualkeys v0 lalt v1 (macro f9 5 f10))\n");
+    t.push_str("(defvirtualkeys");
+    for (n, a) in &s.vkeys {
+        t.push_str(&format!(" {n} {a}"));
+    }
+    t.push_str(")\n");
     t.push_str(&format!("(deflayer {}\n  {}\n  {row})\n", s.l0, s.acts0.join("\n  ")));
     t.push_str(&format!("(deflayer {}\n  {}\n  {row})\n", s.l1, s.acts1.join("\n  ")));
     if let Some((a, b)) = &s.overrides {
         t.push_str(&format!("(defoverrides ({a}) ({b}))\n"));
+    }
+    if !s.seqs.is_empty() {
+        t.push_str("(defseq");
+        for (n, keys) in &s.seqs {
+            t.push_str(&format!(" {n} ({keys})"));
+        }
+        t.push_str(")\n");
+    }
+    if let Some(z) = &s.zippy {
+        t.push_str(&format!("(defzippy {}{})\n", z.file, z.opts));
     }
     t
 }
 
 fn rand_action(rng: &mut Rng, letters: &[&str], other_layer: &str) -> String {
     let k = |rng: &mut Rng| rng.pick(letters).to_string();
-    match rng.usize(40) {
+    match rng.usize(44) {
         0..=15 => k(rng),
         16 | 17 => format!("(tap-hold 200 200 {} lctl)", k(rng)),
         18 | 19 => format!("(one-shot 500 {})", rng.pick(&["lsft", "rctl"])),
@@ -176,6 +239,9 @@ fn rand_action(rng: &mut Rng, letters: &[&str], other_layer: &str) -> String {
         34 => format!("(tap-dance 150 ({} {}))", k(rng), k(rng)),
         35 => format!("(unmod {})", k(rng)),
         37 => format!("(fork {} {} (lsft rctl))", k(rng), k(rng)),
+        40 => format!("(movemouse-accel-{} 10 300 1 6)", rng.pick(&["up", "left", "down"])),
+        41 => format!("(movemouse-{} 15 3)", rng.pick(&["down", "right", "up"])),
+        42 => format!("(switch ((key-timing 1 lt {})) {} break () {} break)", rng.pick(&[80u32, 300, 900]), k(rng), k(rng)),
         _ => k(rng),
     }
 }
@@ -192,16 +258,48 @@ fn rand_spec(rng: &mut Rng, letters: &[&str], avoid_l0: Option<&str>) -> CfgSpec
     let (l0, l1) = (names[0].to_string(), names[1].to_string());
     let acts0 = (0..ACT_KEYS.len()).map(|_| rand_action(rng, letters, &l1)).collect();
     let acts1 = (0..ACT_KEYS.len()).map(|_| if rng.chance(1, 4) { "_".to_string() } else { rand_action(rng, letters, &l0) }).collect();
-    let mut opts = String::new();
+    let mut opts: Vec<(String, String)> = vec![];
+    let mut opt = |c: bool, n: &str, v: String| {
+        if c {
+            opts.push((n.to_string(), v));
+        }
+    };
+    opt(rng.chance(1, 3), "concurrent-tap-hold", "yes".into());
+    opt(rng.chance(1, 4), "rapid-event-delay", rng.pick(&[0u32, 1, 20]).to_string());
+    opt(rng.chance(1, 4), "override-release-on-activation", "yes".into());
+    // options that do_live_reload copies into fields of the running instance
+    opt(rng.chance(1, 3), "sequence-timeout", rng.pick(&[150u32, 400, 2000]).to_string());
+    opt(rng.chance(1, 3), "sequence-input-mode", rng.pick(&["visible-backspaced", "hidden-suppressed", "hidden-delay-type"]).to_string());
+    opt(rng.chance(1, 8), "sequence-backtrack-modcancel", "no".into());
+    opt(rng.chance(1, 12), "sequence-always-on", "yes".into());
+    opt(rng.chance(1, 5), "movemouse-smooth-diagonals", "yes".into());
+    opt(rng.chance(1, 5), "movemouse-inherit-accel-state", "yes".into());
+    opt(rng.chance(1, 4), "dynamic-macro-max-presses", rng.pick(&[1u32, 3, 6]).to_string());
+    opt(rng.chance(1, 4), "dynamic-macro-replay-delay-behaviour", rng.pick(&["constant", "recorded"]).to_string());
+    // virtual keys: v0 and v1 always exist (actions refer to them), v2 / v3 sometimes; the
+    // definition order (= index behind the name) and what each one does are random
+    let mut vnames: Vec<&str> = vec!["v0", "v1"];
+    if rng.chance(2, 3) {
+        vnames.push("v2");
+    }
     if rng.chance(1, 3) {
-        opts.push_str(" concurrent-tap-hold yes");
+        vnames.push("v3");
     }
-    if rng.chance(1, 4) {
-        opts.push_str(&format!(" rapid-event-delay {}", rng.pick(&[0u32, 1, 20])));
-    }
-    if rng.chance(1, 4) {
-        opts.push_str(" override-release-on-activation yes");
-    }
+    rng.shuffle(&mut vnames);
+    let vkeys: Vec<(String, String)> = vnames
+        .iter()
+        .map(|n| {
+            let a = match rng.usize(8) {
+                0 | 1 => rng.pick(letters).to_string(),
+                2 => "lalt".to_string(),
+                3 => "lsft".to_string(),
+                4 | 5 => format!("(macro {} 5 {})", rng.pick(letters), rng.pick(letters)),
+                6 => format!("S-{}", rng.pick(letters)),
+                _ => format!("(layer-while-held {l1})"),
+            };
+            (n.to_string(), a)
+        })
+        .collect();
     // the overridden key is one that the first layer really types (so the table matters)
     let acts0: Vec<String> = acts0;
     let typed: Vec<&String> = acts0.iter().filter(|a| letters.contains(&a.as_str())).collect();
@@ -215,7 +313,243 @@ fn rand_spec(rng: &mut Rng, letters: &[&str], avoid_l0: Option<&str>) -> CfgSpec
     } else {
         None
     };
-    CfgSpec { l0, l1, acts0, acts1, opts, overrides }
+    CfgSpec { l0, l1, acts0, acts1, opts, overrides, vkeys, seqs: vec![], zippy: None }
+}
+
+// --- features whose state lives outside the replaced layout: zippychord (process-global),
+// --- sequences, the virtual-key name table, dynamic-macro options
+
+/// What the continuation generator needs to know about the file the requests end on.
+#[derive(Clone, Debug, Default)]
+struct Meta {
+    /// slots (index into ACT_KEYS) that type distinct plain letters on the first layer
+    plain: Vec<usize>,
+    /// chords of the case, as slot sets (every dictionary of the case draws from them)
+    chords: Vec<Vec<usize>>,
+    /// key sequences of the case, as slot lists
+    seqs: Vec<Vec<usize>>,
+    sldr: Option<usize>,
+    /// (dynamic-macro-record slot, dynamic-macro-play slot)
+    dm: Option<(usize, usize)>,
+    mouse: Vec<usize>,
+}
+
+#[derive(Clone, Copy, Debug, Default)]
+struct Feat {
+    /// the case needs chord / sequence letters on this file's first layer
+    pool: bool,
+    zippy: bool,
+    seq: bool,
+    dm: bool,
+}
+
+fn rand_word(rng: &mut Rng) -> String {
+    const OUT: &[&str] = &["a", "b", "c", "d", "e", "f", "g", "h", "i", "j", "m", "n", "o", "p", "r", "s", "t", "u", "w", "y", "1", "2", " "];
+    let n = 1 + rng.usize(4);
+    let mut w = String::new();
+    for i in 0..n {
+        let c = rng.pick(OUT).to_string();
+        if i == 0 && rng.chance(1, 6) {
+            w.push_str(&c.to_uppercase());
+        } else {
+            w.push_str(&c);
+        }
+    }
+    if w.trim().is_empty() {
+        w = "ok".into();
+    }
+    w
+}
+
+fn rand_zippy_opts(rng: &mut Rng) -> String {
+    let mut o = String::new();
+    if rng.chance(1, 2) {
+        o.push_str(&format!(" on-first-press-chord-deadline {}", rng.pick(&[30u32, 120, 700])));
+    }
+    if rng.chance(1, 2) {
+        o.push_str(&format!(" idle-reactivate-time {}", rng.pick(&[60u32, 250, 900])));
+    }
+    if rng.chance(1, 2) {
+        o.push_str(&format!(" smart-space {}", rng.pick(&["none", "add-space-only", "full"])));
+    }
+    o
+}
+
+/// Dictionary over the chords of the case (`pool`, as letters of the file the requests end on) and
+/// over `own` letters (what the configuration itself types); inputs are unique as key sets.
+fn rand_dict(rng: &mut Rng, file: String, pool: &[Vec<String>], own: &[String], follow: &[String]) -> ZippySpec {
+    let mut entries: Vec<(String, String)> = vec![];
+    let mut seen: Vec<Vec<String>> = vec![];
+    let add = |rng: &mut Rng, entries: &mut Vec<(String, String)>, seen: &mut Vec<Vec<String>>, chord: &[String]| -> bool {
+        let mut key = chord.to_vec();
+        key.sort();
+        key.dedup();
+        if key.len() != chord.len() || seen.contains(&key) {
+            return false;
+        }
+        seen.push(key);
+        entries.push((chord.concat(), rand_word(rng)));
+        true
+    };
+    for (i, c) in pool.iter().enumerate() {
+        if i == 0 || rng.chance(3, 4) {
+            let mut c = c.clone();
+            rng.shuffle(&mut c);
+            if add(rng, &mut entries, &mut seen, &c) && !follow.is_empty() && rng.chance(1, 2) {
+                // follow-up chord of an existing chord
+                let base = entries.last().map(|e| e.0.clone()).unwrap_or_default();
+                entries.push((format!("{base} {}", rng.pick(follow)), rand_word(rng)));
+            }
+        }
+    }
+    if own.len() >= 2 {
+        for _ in 0..rng.usize(3) {
+            let k = 2 + rng.usize(2.min(own.len() - 1));
+            let c: Vec<String> = rng.subset(own.len(), k.min(own.len())).into_iter().map(|i| own[i].clone()).collect();
+            add(rng, &mut entries, &mut seen, &c);
+        }
+    }
+    ZippySpec { file, entries, opts: rand_zippy_opts(rng) }
+}
+
+fn sldr_action(rng: &mut Rng) -> String {
+    match rng.usize(6) {
+        0 => "(sequence 300)".into(),
+        1 => format!("(sequence 500 {})", rng.pick(&["visible-backspaced", "hidden-suppressed", "hidden-delay-type"])),
+        _ => "sldr".into(),
+    }
+}
+
+fn plain_letters(s: &CfgSpec, letters: &[&str]) -> Vec<String> {
+    let mut v: Vec<String> = vec![];
+    for a in &s.acts0 {
+        if letters.contains(&a.as_str()) && !v.contains(a) {
+            v.push(a.clone());
+        }
+    }
+    v
+}
+
+/// Give a new configuration the features of the case and return where they sit.
+fn decorate_new(rng: &mut Rng, s: &mut CfgSpec, letters: &[&str], f: Feat, dict_file: String) -> Meta {
+    let mut m = Meta::default();
+    let mut seen: Vec<String> = vec![];
+    for (i, a) in s.acts0.iter().enumerate() {
+        if letters.contains(&a.as_str()) && !seen.contains(a) {
+            seen.push(a.clone());
+            m.plain.push(i);
+        }
+    }
+    if f.pool {
+        rng.shuffle(&mut m.plain);
+        m.plain.truncate(3);
+        let mut free: Vec<usize> = (0..ACT_KEYS.len()).filter(|i| !m.plain.contains(i)).collect();
+        rng.shuffle(&mut free);
+        while m.plain.len() < 3 {
+            let Some(slot) = free.pop() else { break };
+            let used: Vec<String> = s.acts0.iter().cloned().collect();
+            let unused: Vec<&str> = letters.iter().copied().filter(|l| !used.iter().any(|x| x == l)).collect();
+            if unused.is_empty() {
+                break;
+            }
+            s.acts0[slot] = rng.pick(&unused).to_string();
+            m.plain.push(slot);
+        }
+        // slots outside `plain` must not type one of the chord letters a second time
+        let chord_letters: Vec<String> = m.plain.iter().map(|i| s.acts0[*i].clone()).collect();
+        for i in 0..ACT_KEYS.len() {
+            if !m.plain.contains(&i) && chord_letters.contains(&s.acts0[i]) {
+                let used: Vec<String> = s.acts0.iter().cloned().collect();
+                let unused: Vec<&str> = letters.iter().copied().filter(|l| !used.iter().any(|x| x == l)).collect();
+                if !unused.is_empty() {
+                    s.acts0[i] = rng.pick(&unused).to_string();
+                }
+            }
+        }
+    }
+    let mut free: Vec<usize> = (0..ACT_KEYS.len()).filter(|i| !m.plain.contains(i)).collect();
+    rng.shuffle(&mut free);
+    if f.seq {
+        if let Some(slot) = free.pop() {
+            s.acts0[slot] = sldr_action(rng);
+            m.sldr = Some(slot);
+        }
+    }
+    if f.dm && free.len() >= 2 {
+        let (r, p) = (free.pop().unwrap_or(0), free.pop().unwrap_or(1));
+        s.acts0[r] = "(dynamic-macro-record 1)".into();
+        s.acts0[p] = "(dynamic-macro-play 1)".into();
+        m.dm = Some((r, p));
+        if let Some(x) = free.pop() {
+            if rng.chance(1, 3) {
+                s.acts0[x] = rng.pick(&["dynamic-macro-record-stop", "(dynamic-macro-record-stop-truncate 1)"]).to_string();
+            }
+        }
+    }
+    if f.pool && m.plain.len() >= 2 {
+        let np = m.plain.len();
+        for _ in 0..1 + rng.usize(3) {
+            let k = (2 + rng.usize(2)).min(np);
+            let mut c: Vec<usize> = rng.subset(np, k).into_iter().map(|i| m.plain[i]).collect();
+            c.sort();
+            if !m.chords.contains(&c) {
+                m.chords.push(c);
+            }
+        }
+        // key sequences with pairwise different first keys (no sequence is a prefix of another)
+        let mut firsts = m.plain.clone();
+        rng.shuffle(&mut firsts);
+        for first in firsts.into_iter().take(1 + rng.usize(2)) {
+            let mut q = vec![first];
+            let mut rest: Vec<usize> = m.plain.iter().copied().filter(|x| *x != first).collect();
+            rng.shuffle(&mut rest);
+            q.extend(rest.into_iter().take(1 + rng.usize(2)));
+            m.seqs.push(q);
+        }
+    }
+    let letter = |s: &CfgSpec, slot: usize| s.acts0[slot].clone();
+    if f.seq {
+        for q in &m.seqs {
+            let v = rng.pick(&s.vkeys).0.clone();
+            s.seqs.push((v, q.iter().map(|x| letter(s, *x)).collect::<Vec<_>>().join(" ")));
+        }
+    }
+    if f.zippy {
+        let pool: Vec<Vec<String>> = m.chords.iter().map(|c| c.iter().map(|x| letter(s, *x)).collect()).collect();
+        let own = plain_letters(s, letters);
+        s.zippy = Some(rand_dict(rng, dict_file, &pool, &own, &own));
+    }
+    m.mouse = (0..ACT_KEYS.len()).filter(|i| s.acts0[*i].starts_with("(movemouse")).collect();
+    m
+}
+
+/// Give the old configuration features that refer to what the file the requests end on types:
+/// its dictionary / sequence table stays observable after the reload if it survives.
+fn decorate_old(rng: &mut Rng, old: &mut CfgSpec, tgt: &CfgSpec, tm: &Meta, f: Feat) {
+    if f.seq {
+        // slots 0 and 1 belong to the pre-state scenario
+        let slot = 2 + rng.usize(ACT_KEYS.len() - 2);
+        old.acts0[slot] = sldr_action(rng);
+        for q in &tm.seqs {
+            if rng.chance(3, 4) {
+                let v = rng.pick(&old.vkeys).0.clone();
+                old.seqs.push((v, q.iter().map(|x| tgt.acts0[*x].clone()).collect::<Vec<_>>().join(" ")));
+            }
+        }
+        if old.seqs.is_empty() {
+            let own = plain_letters(old, OLD_LETTERS);
+            if own.len() >= 2 {
+                let v = rng.pick(&old.vkeys).0.clone();
+                old.seqs.push((v, format!("{} {}", own[0], own[1])));
+            }
+        }
+    }
+    if f.zippy {
+        let pool: Vec<Vec<String>> = tm.chords.iter().map(|c| c.iter().map(|x| tgt.acts0[*x].clone()).collect()).collect();
+        let own = plain_letters(old, OLD_LETTERS);
+        let follow: Vec<String> = tm.plain.iter().map(|x| tgt.acts0[*x].clone()).collect();
+        old.zippy = Some(rand_dict(rng, "zip-old.txt".into(), &pool, &own, &follow));
+    }
 }
 
 #[derive(Clone, Debug, PartialEq)]
@@ -226,8 +560,10 @@ enum Content {
     Missing,
     Directory,
     NonUtf8,
+    /// the configuration text is fine but the zippychord dictionary it names is malformed
+    BadDict,
 }
-const FAULTS: &[Content] = &[Content::Syntax, Content::Semantic, Content::Missing, Content::Directory, Content::NonUtf8];
+const FAULTS: &[Content] = &[Content::Syntax, Content::Semantic, Content::Missing, Content::Directory, Content::NonUtf8, Content::BadDict];
 
 fn fault_name(c: &Content) -> &'static str {
     match c {
@@ -237,6 +573,7 @@ fn fault_name(c: &Content) -> &'static str {
         Content::Missing => "missing-file",
         Content::Directory => "directory",
         Content::NonUtf8 => "non-utf8",
+        Content::BadDict => "broken-zippy-dictionary",
     }
 }
 
@@ -263,6 +600,7 @@ fn write_content(path: &Path, c: &Content, valid_text: &str, variant: u64) -> st
             std::fs::write(path, t)
         }
         Content::Missing => Ok(()),
+        Content::BadDict => std::fs::write(path, valid_text),
         Content::Directory => std::fs::create_dir_all(path),
         Content::NonUtf8 => {
             let mut b = valid_text.as_bytes().to_vec();
@@ -271,6 +609,28 @@ fn write_content(path: &Path, c: &Content, valid_text: &str, variant: u64) -> st
             std::fs::write(path, b)
         }
     }
+}
+
+/// Put file `path` into state `c`, together with the dictionary its valid text names.
+fn write_state(dir: &Path, path: &Path, c: &Content, spec: &CfgSpec, valid_text: &str, variant: u64) -> std::io::Result<()> {
+    if let Some(z) = &spec.zippy {
+        std::fs::write(dir.join(&z.file), dict_text(z))?;
+    }
+    if *c != Content::BadDict {
+        return write_content(path, c, valid_text, variant);
+    }
+    // (a dictionary file that does not exist is read as an empty one, like a missing include, so
+    // only malformed dictionaries are faults)
+    let (d, good, text) = match &spec.zippy {
+        Some(z) => (dir.join(&z.file), dict_text(z), valid_text.to_string()),
+        None => (dir.join("zip-bad.txt"), String::new(), format!("{valid_text}(defzippy zip-bad.txt)\n")),
+    };
+    match variant % 3 {
+        0 => std::fs::write(&d, format!("{good}no tab in this line\n"))?,
+        1 => std::fs::write(&d, format!("{good}zx\t\u{a7}\u{a7}\n"))?,
+        _ => std::fs::write(&d, format!("\tword\n{good}"))?,
+    }
+    write_content(path, c, &text, variant)
 }
 
 // ------------------------------------------------------------------------------------------
@@ -303,6 +663,12 @@ struct Plan {
     post: Vec<Ev>,
     cont: Vec<Ev>,
     success: bool,
+    /// which of the old / new files have a zippychord dictionary, a sequence table
+    zmode: &'static str,
+    smode: &'static str,
+    /// features of the file the requests end on
+    meta: Meta,
+    cinfo: ContInfo,
 }
 
 fn step_idx(kind: usize, cur: usize, n: usize, num_arg: usize, file_arg: usize) -> usize {
@@ -458,6 +824,30 @@ fn make_plan(ctx: &Ctx, idx: u64) -> Plan {
         specs.push(rand_spec(&mut rng, NEW_LETTERS, Some(&avoid)));
     }
     let target = *idx_after.last().unwrap();
+    // state that lives outside the replaced layout: which of old / new files have a zippychord
+    // dictionary, sequences, dynamic-macro keys (the options and virtual keys vary in rand_spec)
+    let zmode: &'static str = match rng.usize(20) {
+        0..=4 => "none",
+        5..=10 => "old-only",
+        11..=13 => "new-only",
+        14..=17 => "both",
+        _ => "both-same-dict-file",
+    };
+    let smode: &'static str = match rng.usize(20) {
+        0..=8 => "none",
+        9..=11 => "old-only",
+        12..=14 => "new-only",
+        _ => "both",
+    };
+    let pool = zmode != "none" || smode != "none";
+    let mut metas = vec![];
+    for (i, sp) in specs.iter_mut().enumerate() {
+        let f = Feat { pool, zippy: matches!(zmode, "new-only" | "both" | "both-same-dict-file"), seq: matches!(smode, "new-only" | "both"), dm: rng.chance(1, 4) };
+        let dict_file = if zmode == "both-same-dict-file" && i == 0 { "zip-old.txt".to_string() } else { format!("zip-{i}.txt") };
+        metas.push(decorate_new(&mut rng, sp, NEW_LETTERS, f, dict_file));
+    }
+    let fo = Feat { pool, zippy: matches!(zmode, "old-only" | "both" | "both-same-dict-file"), seq: matches!(smode, "old-only" | "both"), dm: false };
+    decorate_old(&mut rng, &mut old, &specs[target], &metas[target], fo);
     let mut contents = vec![Content::Valid; nfiles];
     if !success {
         // every file a request of this case can land on is broken in the same way
@@ -465,7 +855,6 @@ fn make_plan(ctx: &Ctx, idx: u64) -> Plan {
             contents[i] = fault.clone();
         }
     }
-    let _ = target;
     // after the request(s): wait, then release what is held
     let mut post = vec![];
     if wait_before_release > 0 {
@@ -480,12 +869,170 @@ fn make_plan(ctx: &Ctx, idx: u64) -> Plan {
             post.push(Ev::T(g));
         }
     }
-    // continuation
+    let (cont, cinfo) = build_cont(&mut rng, &metas[target]);
+    Plan { scenario, nfiles, specs, old, contents, fault_variant: rng.below(12), reqs, num_arg, file_arg, idx_after, pre, post, cont, success, zmode, smode, meta: metas[target].clone(), cinfo }
+}
+
+/// What the continuation contains besides random typing (for the evidence counters).
+#[derive(Clone, Debug, Default)]
+struct ContInfo {
+    /// chords of the case that are typed (slot sets), with zippychord surely enabled (first thing
+    /// of the continuation or after a long pause) or not
+    chord_bursts: Vec<(Vec<usize>, bool)>,
+    other_bursts: u64,
+    seq_probes: u64,
+    dm_probes: u64,
+    fk_ops: u64,
+    mouse_holds: u64,
+}
+
+/// Continuation typed from the idle point on: random typing interleaved with directed pieces that
+/// reach the features of the file the requests end on (chords pressed together, leader + key
+/// sequence, record / replay of a dynamic macro, virtual keys operated by name as the TCP server
+/// does, mouse-movement keys held together). Everything is released at the end of every piece.
+fn build_cont(rng: &mut Rng, m: &Meta) -> (Vec<Ev>, ContInfo) {
     let keys: Vec<u16> = ACT_KEYS.iter().map(|k| osc(k)).collect();
-    let n = 8 + rng.usize(24);
-    let mut cont = crate::gen::hist::consistent(&mut rng, &keys, n, &[0, 1, 5, 20, 60, 199, 201, 300, 520], false);
-    cont.push(Ev::T(1500));
-    Plan { scenario, nfiles, specs, old, contents, fault_variant: rng.below(12), reqs, num_arg, file_arg, idx_after, pre, post, cont, success }
+    let mut info = ContInfo::default();
+    let mut c: Vec<Ev> = vec![];
+    let wait = |c: &mut Vec<Ev>, n: u32| {
+        if n > 0 {
+            c.push(Ev::T(n));
+        }
+    };
+    let tap = |c: &mut Vec<Ev>, slot: usize, hold: u32| {
+        c.push(Ev::P(keys[slot]));
+        if hold > 0 {
+            c.push(Ev::T(hold));
+        }
+        c.push(Ev::R(keys[slot]));
+    };
+    let nseg = 2 + rng.usize(4);
+    for si in 0..nseg {
+        let mut kinds: Vec<&str> = vec!["typing", "typing", "typing", "burst", "fk"];
+        if !m.chords.is_empty() {
+            kinds.extend(["chord", "chord", "chord"]);
+        }
+        if m.sldr.is_some() && !m.seqs.is_empty() {
+            kinds.extend(["seq", "seq"]);
+        }
+        if m.dm.is_some() {
+            kinds.extend(["dm", "dm"]);
+        }
+        if !m.mouse.is_empty() {
+            kinds.push("mouse");
+        }
+        let kind = if si == 0 && !m.chords.is_empty() && rng.chance(1, 2) { "chord" } else { *rng.pick(&kinds) };
+        match kind {
+            "chord" | "burst" | "mouse" => {
+                let quiet_before = c.is_empty();
+                let pause = *rng.pick(&[0u32, 0, 40, 1200]);
+                wait(&mut c, pause);
+                let mut slots: Vec<usize> = match kind {
+                    "chord" => rng.pick(&m.chords).clone(),
+                    "mouse" => {
+                        let mut v = vec![*rng.pick(&m.mouse)];
+                        let o = rng.usize(ACT_KEYS.len());
+                        if !v.contains(&o) {
+                            v.push(o);
+                        }
+                        v
+                    }
+                    _ => {
+                        let k = 2 + rng.usize(2);
+                        rng.subset(ACT_KEYS.len(), k)
+                    }
+                };
+                rng.shuffle(&mut slots);
+                for s in &slots {
+                    c.push(Ev::P(keys[*s]));
+                    wait(&mut c, *rng.pick(&[0u32, 0, 1, 2, 8]));
+                }
+                wait(&mut c, if kind == "mouse" { *rng.pick(&[30u32, 90, 150]) } else { *rng.pick(&[3u32, 20, 60]) });
+                rng.shuffle(&mut slots);
+                for s in &slots {
+                    c.push(Ev::R(keys[*s]));
+                    wait(&mut c, *rng.pick(&[0u32, 1, 5]));
+                }
+                if kind == "chord" && !m.plain.is_empty() && rng.chance(1, 3) {
+                    // a possible follow-up chord
+                    wait(&mut c, *rng.pick(&[5u32, 30]));
+                    tap(&mut c, *rng.pick(&m.plain), 10);
+                }
+                match kind {
+                    "chord" => {
+                        let mut set = slots.clone();
+                        set.sort();
+                        info.chord_bursts.push((set, quiet_before || pause >= 1200));
+                    }
+                    "mouse" => info.mouse_holds += 1,
+                    _ => info.other_bursts += 1,
+                }
+                wait(&mut c, *rng.pick(&[0u32, 10, 100, 600]));
+            }
+            "seq" => {
+                if let Some(l) = m.sldr {
+                    tap(&mut c, l, 1 + rng.usize(25) as u32);
+                    wait(&mut c, *rng.pick(&[1u32, 20]));
+                    let q = rng.pick(&m.seqs).clone();
+                    let cut = if rng.chance(1, 5) { 1 } else { q.len() };
+                    for s in &q[..cut] {
+                        tap(&mut c, *s, *rng.pick(&[3u32, 15]));
+                        wait(&mut c, *rng.pick(&[1u32, 20, 200]));
+                    }
+                    if rng.chance(1, 4) {
+                        tap(&mut c, rng.usize(ACT_KEYS.len()), 5);
+                    }
+                    wait(&mut c, *rng.pick(&[0u32, 300, 1200, 2200]));
+                    info.seq_probes += 1;
+                }
+            }
+            "dm" => {
+                if let Some((r, p)) = m.dm {
+                    tap(&mut c, r, 5);
+                    wait(&mut c, 10);
+                    for _ in 0..1 + rng.usize(5) {
+                        let others: Vec<usize> = (0..ACT_KEYS.len()).filter(|x| *x != r && *x != p).collect();
+                        tap(&mut c, *rng.pick(&others), *rng.pick(&[2u32, 10, 40]));
+                        wait(&mut c, *rng.pick(&[5u32, 30, 120]));
+                    }
+                    tap(&mut c, r, 5);
+                    wait(&mut c, 20);
+                    for _ in 0..1 + rng.usize(2) {
+                        tap(&mut c, p, 5);
+                        wait(&mut c, *rng.pick(&[100u32, 400, 900]));
+                    }
+                    info.dm_probes += 1;
+                }
+            }
+            "fk" => {
+                let name = rng.pick(&["v0", "v1", "v2", "v3"]).to_string();
+                match rng.usize(3) {
+                    0 => c.push(Ev::Fk(name, 't')),
+                    1 => {
+                        c.push(Ev::Fk(name.clone(), 'p'));
+                        wait(&mut c, *rng.pick(&[1u32, 20, 80]));
+                        if rng.coin() {
+                            tap(&mut c, rng.usize(ACT_KEYS.len()), 10);
+                        }
+                        c.push(Ev::Fk(name, 'r'));
+                    }
+                    _ => {
+                        c.push(Ev::Fk(name.clone(), 'g'));
+                        wait(&mut c, *rng.pick(&[1u32, 30]));
+                        c.push(Ev::Fk(name, 'g'));
+                    }
+                }
+                info.fk_ops += 1;
+                wait(&mut c, *rng.pick(&[1u32, 30, 300]));
+            }
+            _ => {
+                let n = 4 + rng.usize(14);
+                c.extend(crate::gen::hist::consistent(rng, &keys, n, &[0, 1, 5, 20, 60, 199, 201, 300, 520], false));
+            }
+        }
+    }
+    c.push(Ev::T(1500));
+    (c, info)
 }
 
 struct Obs {
@@ -501,6 +1048,9 @@ struct Obs {
     requested_at_end: bool,
     /// (only meaningful when keys are stuck at the end) every stuck key is produced by a layout state
     stuck_keys_backed_by_layout: bool,
+    /// at the end of the settle phase (idle point, or 6000 ticks) nothing is pressed but the
+    /// override bookkeeping still lists keys as overridden
+    stale_override_state: bool,
 }
 
 #[derive(Clone, Debug)]
@@ -511,6 +1061,9 @@ struct AppliedInfo {
     idle_for: u64,
     layer_after: usize,
     layer_name_after: String,
+    /// a key sequence that was started under the old configuration is still pending right after
+    /// the reload
+    seq_pending: bool,
 }
 
 struct Jitter;
@@ -542,10 +1095,16 @@ fn run_reload(p: &Plan, paths: &Paths, noop: bool) -> Result<Result<Obs, String>
     }
     // start-up state of the files: file 0 holds the old configuration; the others already hold
     // what they will hold at request time (they are only read by a reload)
-    let mut io_ok = std::fs::write(&paths.files[0], &old).is_ok();
+    // (dictionaries first: the new file 0 may name the same dictionary file as the old one, which
+    // then changes on disk together with the configuration)
+    let mut io_ok = true;
     for i in 1..p.nfiles {
-        io_ok &= write_content(&paths.files[i], &p.contents[i], &new[i], p.fault_variant).is_ok();
+        io_ok &= write_state(&paths.dir, &paths.files[i], &p.contents[i], &p.specs[i], &new[i], p.fault_variant).is_ok();
     }
+    if let Some(z) = &p.old.zippy {
+        io_ok &= std::fs::write(paths.dir.join(&z.file), dict_text(z)).is_ok();
+    }
+    io_ok &= std::fs::write(&paths.files[0], &old).is_ok();
     if !io_ok {
         return Ok(Err("cannot write scratch files".into()));
     }
@@ -556,7 +1115,7 @@ fn run_reload(p: &Plan, paths: &Paths, noop: bool) -> Result<Result<Obs, String>
     rd.run(&[Ev::T(5)]);
     rd.run(&p.pre);
     // the file the first request reloads changes on disk just before the request
-    if write_content(&paths.files[0], &p.contents[0], &new[0], p.fault_variant).is_err() {
+    if write_state(&paths.dir, &paths.files[0], &p.contents[0], &p.specs[0], &new[0], p.fault_variant).is_err() {
         return Ok(Err("cannot rewrite scratch file".into()));
     }
     let t_req = rd.sim.now;
@@ -580,7 +1139,8 @@ fn run_reload(p: &Plan, paths: &Paths, noop: bool) -> Result<Result<Obs, String>
                     let layer_after = rd.sim.k.layout.b().current_layer();
                     let layer_name_after = rd.sim.k.layer_info.get(layer_after).map(|l| l.name.clone()).unwrap_or_default();
                     let _ = keys_before.len();
-                    applied.push(AppliedInfo { tick: rd.sim.now, file: f.clone(), os_keys_down: after, idle_for, layer_after, layer_name_after });
+                    let seq_pending = !rd.sim.k.sequence_state.is_inactive();
+                    applied.push(AppliedInfo { tick: rd.sim.now, file: f.clone(), os_keys_down: after, idle_for, layer_after, layer_name_after, seq_pending });
                 }
                 seen_notes += 1;
             }
@@ -613,6 +1173,7 @@ fn run_reload(p: &Plan, paths: &Paths, noop: bool) -> Result<Result<Obs, String>
             break;
         }
     }
+    let stale_override_state = rd.sim.os.all_up() && rd.sim.k.cur_keys.is_empty() && rd.sim.k.override_states.removed_oscs().next().is_some();
     let mut settle_problem = None;
     if t_idle.is_none() {
         let tail: Vec<&Out> = rd.sim.trace.iter().rev().take(6).collect();
@@ -628,6 +1189,8 @@ fn run_reload(p: &Plan, paths: &Paths, noop: bool) -> Result<Result<Obs, String>
             "reload-still-pending"
         } else if quiet < 40 {
             "still-emitting"
+        } else if stale_override_state {
+            "stale-override-state"
         } else {
             "not-idle"
         };
@@ -646,7 +1209,7 @@ fn run_reload(p: &Plan, paths: &Paths, noop: bool) -> Result<Result<Obs, String>
     let requested_at_end = rd.sim.k.verif_live_reload_requested();
     let backed: Vec<String> = rd.sim.k.layout.b().keycodes().map(|k| format!("{k:?}")).collect();
     let stuck_keys_backed_by_layout = rd.sim.os.keys_down.iter().all(|k| backed.contains(k));
-    Ok(Ok(Obs { trace: std::mem::take(&mut rd.sim.trace), notes: rd.notes, t_req, applied, t_idle, settle_problem, requested_at_end, stuck_keys_backed_by_layout }))
+    Ok(Ok(Obs { trace: std::mem::take(&mut rd.sim.trace), notes: rd.notes, t_req, applied, t_idle, settle_problem, requested_at_end, stuck_keys_backed_by_layout, stale_override_state }))
 }
 
 /// Fresh instance of `file` (Kanata::new, as at start-up) running the continuation.
@@ -701,6 +1264,10 @@ fn describe_plan(p: &Plan, paths: &Paths) -> Value {
         "old_config_f0": old,
         "valid_text_of_each_file": new,
         "content_on_disk_at_request": p.contents.iter().map(fault_name).collect::<Vec<_>>(),
+        "zippy_dictionary_of_old_config": p.old.zippy.as_ref().map(|z| format!("{}: {}", z.file, dict_text(z))),
+        "zippy_dictionary_of_each_file": p.specs.iter().map(|s| s.zippy.as_ref().map(|z| format!("{}: {}", z.file, dict_text(z)))).collect::<Vec<_>>(),
+        "zippy_in_old_and_new": p.zmode,
+        "sequences_in_old_and_new": p.smode,
         "pre_history": render_hist(&p.pre),
         "requests": p.reqs.iter().map(|(k, h, a)| format!("tap {} (key {}) held {h} ticks, then {a} ticks", REQ_KINDS[*k], RELOAD_KEYS[*k])).collect::<Vec<_>>(),
         "file_index_after_each_request": p.idx_after,
@@ -774,6 +1341,9 @@ fn judge_plan(p: &Plan, paths: &Paths, out: &mut CaseOut, desc: &Value, verbose:
         let fault = fault_name(&p.contents[*p.idx_after.last().unwrap()]);
         out.inc("failed_reload_cases");
         out.inc(&format!("fault:{fault}"));
+        if p.old.zippy.is_some() {
+            out.inc("failed_reload_cases_with_defzippy_in_old_config");
+        }
         out.tag(format!("fail|{}|{}|{}|n{}", p.scenario, kind_names.join("+"), fault, p.nfiles));
         if let Some((_, Note::Reload(f))) = a.notes.iter().find(|n| matches!(n.1, Note::Reload(_))) {
             out.violate(
@@ -943,8 +1513,9 @@ fn judge_plan(p: &Plan, paths: &Paths, out: &mut CaseOut, desc: &Value, verbose:
         return Ok(());
     };
     if let Some(o) = late.first() {
+        let seq = if a.applied.iter().any(|x| x.seq_pending) { ":sequence-pending-across-reload" } else { "" };
         out.violate(
-            format!("output-after-reload:{}", kind_class(&o.kind)),
+            format!("output-after-reload:{}{seq}", kind_class(&o.kind)),
             format!("after the reload was applied at tick {t_app} and without new input kanata emitted {} ({} such outputs); a fresh instance emits nothing", o.short(), late.len()),
             witness(json!({"trace": shorts(&a.trace), "notifications": notes_json(&a.notes), "outputs_after_reload_without_input": late_json}), json!("only releases after the reload until the next input")),
         );
@@ -972,9 +1543,82 @@ fn judge_plan(p: &Plan, paths: &Paths, out: &mut CaseOut, desc: &Value, verbose:
     if !rf.is_empty() {
         out.inc("continuations_with_output");
     }
+    // what differs between the old configuration and the reloaded file outside the layout, and
+    // whether the continuation reached it
+    {
+        let tgt = &p.specs[target];
+        let on_planned_target = target == *p.idx_after.last().unwrap();
+        let zo = p.old.zippy.as_ref();
+        let zn = tgt.zippy.as_ref();
+        out.inc(&format!(
+            "zippy_pair:{}->{}",
+            if zo.is_some() { "defzippy" } else { "none" },
+            match (zo, zn) {
+                (_, None) => "none",
+                (Some(o), Some(n)) if o.file == n.file => "same-dictionary-file-edited",
+                (Some(o), Some(n)) if o.entries == n.entries => "same-dictionary",
+                (Some(_), Some(_)) => "other-dictionary",
+                (None, Some(_)) => "defzippy",
+            }
+        ));
+        let bs = rf.iter().filter(|o| o.kind == OutKind::Down && o.name == "BSpace").count() as u64;
+        if zn.is_some() && bs > 0 {
+            out.inc("continuations_with_zippy_expansion_in_new_file");
+            out.count("zippy_expansions_compared_with_fresh", bs);
+        }
+        if on_planned_target {
+            // chords of the case typed in the continuation while a dictionary that has them was
+            // active before the reload
+            let chord_in = |z: &ZippySpec, slots: &[usize]| {
+                let mut want: Vec<String> = slots.iter().map(|x| tgt.acts0[*x].clone()).collect();
+                want.sort();
+                z.entries.iter().any(|e| {
+                    let mut have: Vec<String> = e.0.chars().map(|c| c.to_string()).collect();
+                    have.sort();
+                    have == want
+                })
+            };
+            let mut old_chord_typed = false;
+            for (slots, surely_enabled) in &p.cinfo.chord_bursts {
+                if let Some(o) = zo {
+                    if *surely_enabled && chord_in(o, slots) {
+                        old_chord_typed = true;
+                    }
+                }
+            }
+            if old_chord_typed {
+                out.inc(if zn.is_none() { "old_chord_typed_after_reload_into_file_without_defzippy" } else { "old_chord_typed_after_reload_into_file_with_other_defzippy" });
+            }
+            if !p.cinfo.chord_bursts.is_empty() && zo.is_none() && zn.is_some() {
+                out.inc("new_chord_typed_after_reload_from_file_without_defzippy");
+            }
+            out.count("continuation:chords_pressed_together", p.cinfo.chord_bursts.len() as u64);
+            out.count("continuation:other_keys_pressed_together", p.cinfo.other_bursts);
+            out.count("continuation:leader_plus_sequence", p.cinfo.seq_probes);
+            out.count("continuation:dynamic_macro_record_and_replay", p.cinfo.dm_probes);
+            out.count("continuation:virtual_key_operated_by_name", p.cinfo.fk_ops);
+            out.count("continuation:mouse_movement_keys_held", p.cinfo.mouse_holds);
+            if p.cinfo.seq_probes > 0 && p.old.seqs != tgt.seqs {
+                out.inc("sequence_typed_after_reload_that_changed_the_sequence_table");
+            }
+            if p.cinfo.fk_ops > 0 && p.old.vkeys != tgt.vkeys {
+                out.inc("virtual_key_operated_after_reload_that_changed_the_virtual_keys");
+            }
+        }
+        out.inc(&format!("sequences_pair:{}->{}", if p.old.seqs.is_empty() { "none" } else { "defseq" }, if tgt.seqs.is_empty() { "none" } else if tgt.seqs == p.old.seqs { "same" } else { "defseq" }));
+        if p.old.vkeys.iter().map(|v| &v.0).collect::<Vec<_>>() != tgt.vkeys.iter().map(|v| &v.0).collect::<Vec<_>>() {
+            out.inc("reload_changes_virtual_key_order");
+        }
+        for o in VARIED_OPTS {
+            if p.old.opt(o) != tgt.opt(o) {
+                out.inc(&format!("reload_changes_option:{o}"));
+            }
+        }
+        let _ = &p.meta;
+    }
     if let Some(d) = first_diff(&ra, &rf) {
         out.violate(
-            "differs-from-fresh-instance",
+            if a.stale_override_state { "differs-from-fresh-instance:stale-override-state" } else { "differs-from-fresh-instance" },
             format!("from the idle point after the reload (tick {t_idle}) the outputs differ from a freshly started instance of the new file: {d}"),
             witness(json!({"reloaded_relative_to_idle_point": shorts(&ra), "whole_trace": shorts(&a.trace), "notifications": notes_json(&a.notes)}), json!({"fresh_instance": shorts(&rf)})),
         );
